@@ -21,7 +21,7 @@ RULES = {
     "R8": "the validator the constructor applies to a stored mapping accepts every mapping the encoders produce: it judges the DISTINCT ids (several control conditions share id -1) (the validator clause of C01.R5 run here)",
     "R7": "what save_h5 writes is the screen as it is now: no getter of Screen keeps a result derived from state that set_observed or a view (Plate.merge) mutates without being reset by it",
 }
-MIN = {"R1": 16, "R4": 3, "R5": 6, "R6": 4, "R7": 2, "R8": 1}
+MIN = {"R1": 16, "R4": 5, "R5": 6, "R6": 4, "R7": 2, "R8": 1}
 TRUSTED = ["h5py stores and returns numpy arrays of float64/int64/bool/bytes unchanged", "np.char.encode/decode are inverse for utf-8"]
 TECHNIQUE = "writer/reader table extraction from the syntax tree and set comparison against the constructor's parameter list"
 LEVEL_TEXT = ("For every field of every screen at once: the loader restores it from the key under which the writer stored "
@@ -84,6 +84,7 @@ def r4(ctx):
     ok = all(any(isinstance(n, ast.Return) and U(n.value) == f"self._{nm}" for n in ast.walk(x.node)) for x, nm in ((f, "treatment_mapping"), (g, "sample_mapping")))
     ctx.check("R4", "data.Screen::mapping-properties", ok, "mapping properties return the stored mapping tuples",
               "mapping properties do not return self._treatment_mapping / self._sample_mapping")
+    common.stored_mappings_verbatim(ctx, "R4")
 
 
 def run(ctx):
@@ -122,6 +123,8 @@ def _rep(a, b):
 
 
 WITNESSES = [
+    ("stored sample mapping cast to the rows' dtype", "batchie.data",
+     _rep("        self._sample_mapping = (unique_sample_names, unique_sample_ids)", "        self._sample_mapping = (unique_sample_names.astype(sample_names.dtype), unique_sample_ids)"), ["R4"]),
     ("validator judges all values, not the distinct ones", "batchie.data",
      _rep("        return np.all(np.sort(np.unique(arr)) == np.arange(np.unique(arr).shape[0]))", "        return np.all(np.sort(arr) == np.arange(arr.shape[0]))"), ["R8"]),
     ("encoded plate names kept on the screen", "batchie.data",
